@@ -11,7 +11,7 @@ NOTE = ("Trusted: z3; the shim models of numpy/pandas/h5py operations on symboli
 
 CLAIMED = {
     "C01": ("For every sorted record stream within the bounds (<=3 chromosomes, n<=4 bins, K<=4 records, every chunking incl. empty chunks, both modes, "
-            "iterable/DataFrame/dict/dense-array input; one-piece tables in any row order; ids in int8/int64; loader reused) the real create_cooler -> "
+            "iterable/DataFrame/dict/dense-array input; one-piece tables in any row order; ids in int8/int64; loader reused; an earlier creation in the same process with another dtype for a same-named column) the real create_cooler -> "
             "Cooler.pixels/matrix/info source returns exactly the records and the (completed) matrix given; metadata documents are compared concretely.", "4/C01"),
     "C02": ("The schema predicate (column lengths = nnz, strict order, range, triangularity, both offset indexes = run-length indexes, nbins/nchroms/sum/"
             "bin-type/bin-size consistent) is proved on the raw store after ordered creation from every stream within the bounds, and the index builder is "
@@ -19,25 +19,25 @@ CLAIMED = {
             "refused over the whole range of that type; ensure_sorted repairs any in-chunk order under every flag combination.", "4/C02"),
     "C04": ("Cooler.extent/offset, bins()/pixels()/matrix() fetch, GenomeSegmentation.fetch and bedslice are executed on bin tables with symbolic widths "
             "(fixed-width path taken through the real get_binsize; variable path) and symbolic (chrom, start, end): selected bins == overlapping bins of that "
-            "chromosome; pixel and two-region matrix fetch == index queries on the extents.", "4/C04"),
+            "chromosome; pixel and two-region matrix fetch == index queries on the extents; also on chromosomes as long as int32 coordinates allow (bin widths 6e8, 1e9).", "4/C04"),
     "C05": ("sanitize_records, sanitize_pixels and aggregate_records run on symbolic records (chromosome incl. unlisted, unbounded positions, sided field) "
             "over bin tables with symbolic widths: rejected iff an anchor is outside its chromosome, dropped iff unlisted (or tril under drop), otherwise "
-            "assigned to the bins containing the anchors, mirrored with its sided fields, counted once.", "4/C05"),
+            "assigned to the bins containing the anchors, mirrored with its sided fields, counted once; chromosome columns given as names or as categoricals in another category order.", "4/C05"),
     "C06": ("create_cooler(ordered=False) executed end to end on symbolic chunks with solver-chosen merge buffer and fan-in (one- and two-pass): output "
             "== per-pixel sum of all records and schema-valid, also for chunks in arbitrary internal order with sorting requested (dicts and frames with "
-            "permuted labels) and float value columns; merge_breakpoints decided at function level.", "4/C06"),
+            "permuted labels), float value columns and a pixel listed twice inside a chunk with the duplicate check off; merge_breakpoints decided at function level.", "4/C06"),
     "C07": ("merge_coolers executed on k arbitrary valid inputs with symbolic buffer: exact per-pixel aggregate (sum/max), nothing missing or extra, "
-            "total preserved, schema-valid, mixed input dtypes; a result outside the column type (any width/signedness pair) is an error, never a wrapped "
+            "total preserved, schema-valid, mixed input dtypes, signed values (stored zeros, counts that cancel); a result outside the column type (any width/signedness pair) is an error, never a wrapped "
             "number; acceptance <=> equal bin tables and storage modes.", "4/C07"),
     "C08": ("coarsen_cooler executed on arbitrary valid inputs (fixed and variable bins, factor and chunk size solver-chosen, batched map): new bin table "
             "and per-block exact aggregates, totals, validity; block sums near the type limit are exact or refused; float counts keep their type with no / "
-            "partial dtypes; composition by the div-lemma.", "4/C08"),
+            "partial dtypes; genomes longer than 2^31 bp; composition (k1 then k2 == k1*k2) and commutation with merging executed end to end at small bounds, plus the div-lemma for unbounded x.", "4/C08"),
     "C09": ("get_multiplier_sequence decided on symbolic resolution sets; zoomify_cooler executed end to end with one or two symbolic bases: layout, "
             "recognition, every level equals direct coarsening of a base, bases are faithful copies, non-derivable sets refused.", "4/C09"),
     "C10": ("Decided part only: in a converged run of the real balance_cooler (genome-wide, cis, trans; <=2 sweeps) the NaN bins are exactly the union of the "
             "documented filters min_nnz/min_count/ignore_diags/blacklist/MAD-max (or a whole scope without data) and every other bin has a finite positive "
             "weight, for symbolic thresholds and solver-enumerated small pixel tables (MAD-max: log/exp/median evaluated on the enumerated data, bins on the "
-            "cut-off or with zero marginal not asserted). NOT claimed: flatness after iterating from an arbitrary start (floating-point loop), see DESIGN "
+            "cut-off or with zero marginal not asserted); the bins `cooler balance --blacklist` hands over are exactly those overlapping the BED interval (symbolic bounds). NOT claimed: flatness after iterating from an arbitrary start (floating-point loop), see DESIGN "
             "4/C10 and 5.", "4/C10"),
     "C11": ("balance_cooler run twice symbolically (single span + builtin map vs solver-chosen chunk size + arbitrarily permuting map): weights and stats "
             "equal up to 1e-9, spans tile the pixel table, every pixel visited once, repeated run identical; one sweep equals the dense "
@@ -47,29 +47,29 @@ CLAIMED = {
             "the pixel ids as labels); missing column => ValueError; dump -b agrees.", "4/C12"),
     "C13": ("ordered and unordered creation from free (unconstrained) symbolic records or with an iterator failure before a solver-chosen chunk: error <=> "
             "some chunk is invalid; afterwards the destination (new file / new group / existing non-cooler group / nested group) is not recognised and not "
-            "listed, and a neighbouring collection with symbolic contents plus the file attributes are bit-identical in the raw store; coarsen/merge reading a "
-            "symmetric-upper source that holds lower-triangle records fail or give a valid result, never an invalid one.", "4/C13"),
+            "listed, and a neighbouring collection (also one sharing the destination's top-level group) with symbolic contents plus the file attributes are bit-identical in the raw store; coarsen/merge reading a "
+            "symmetric-upper source that holds lower-triangle records fail or give a valid result, never an invalid one; ids outside the table are refused whatever narrower id dtype is declared.", "4/C13"),
     "C14": ("chroms()/bins()/pixels() selectors sliced with symbolic bounds and column subsets, and annotate() on arbitrary pixel subsets against whole / "
             "selector / partial bin tables (both strategy branches, enum and integer chromosome ids, explicit labels and iloc-derived range labels), single "
-            "column by name on enum- and integer-encoded files, on coolers with symbolic table contents.", "4/C14"),
+            "column by name on enum- and integer-encoded files, a column stored after the Cooler object was made, on coolers with symbolic table contents.", "4/C14"),
     "C15": ("all sequences of 2 (thorough: 3) operations out of create(a/w)/cp/mv/ln hard/soft/external/overwrite over two files are executed on the "
-            "in-memory HDF5 model with symbolic contents against a reference namespace model; every explored path is replayed on real h5py.", "4/C15"),
+            "in-memory HDF5 model with symbolic contents against a reference namespace model (contents include an extra bin column and attributes on inner objects; read-back from another working directory); every explored path is replayed on real h5py.", "4/C15"),
     "C16": ("Decided parts: cooler dump's function body with solver-chosen flags/regions/chunk size on symbolic pixels (rows == the records the options "
             "describe, --columns honoured); dump -> load round trip (COO and bedGraph-2D, zero/one-based, symbolic chunk sizes, BED bins, digit names) under the "
             "to_csv/read_csv identity stub with the real text path run on every explored path; cload pairs / load run to the parser call with symbolic field numbers (every name bound to the requested column "
-            "under the documented read_csv contract) and every explored layout replayed end to end through the real command; zoomify -r spec expansion "
-            "with a symbolic genome length. NOT decided: CSV rendering/parsing, gzip, number formatting.", "4/C16"),
+            "under the documented read_csv contract, id fields movable) and every explored layout replayed end to end through the real command; zoomify -r spec expansion "
+            "with a symbolic genome length; zoomify --field wiring (columns, dtypes, aggregations per named column). NOT decided: CSV rendering/parsing, gzip, number formatting.", "4/C16"),
     "C17": ("create_scool with 1-3 cells and symbolic per-cell tables / per-cell bin columns: each cell reads back its own table, bins columns are the "
-            "root's objects (hard links), listing == names, recognised as scool.", "4/C17"),
+            "root's objects (hard links), listing == names (incl. names differing only by leading zeros), per-cell tables with non-default row labels, recognised as scool.", "4/C17"),
     "C18": ("rename_chroms with every subset renamed, chains of two renamings, enum and integer encodings, symbolic contents: names substituted in order "
-            "(same object and reopened), raw store otherwise unchanged, queries by new name == by old name.", "4/C18"),
+            "(same object and reopened), raw store otherwise unchanged, queries by new name == by old name, joined pixel table and single-column bin selector use the new names; one map reused on two coolers renames each as asked.", "4/C18"),
     "C19": ("parse_humanized executed from source with symbolic digits and a bit-precise binary64 encoding of float()/*/int() (exact for Fraction); "
             "parse_region_string on a grammar of 24 shapes; format->parse round trip; parse_region bounds on unbounded integers; parse_cooler_uri by CrossHair.", "4/C19"),
     "C20": ("binnify is decided for symbolic chromosome lengths (width concrete per case), get_binsize/get_chromsizes for every valid bin table of each "
-            "layout with symbolic widths: a reported size implies every bin has the fixed form.", "4/C20"),
+            "layout with symbolic widths: a reported size implies every bin has the fixed form; chromosome lengths in int32/int16/uint32 near the type limit.", "4/C20"),
     "C03": ("For every stored matrix with n<=3 bins / K<=2 pixels (thorough n<=4,K<=3), every window, both storage modes, dense and sparse output "
             "and pixel-table output (with/without pixel ids) and every chunk size, the real api.matrix / CSRReader / FillLowerRangeQuery2D source returns the slice of the full matrix; the window "
-            "planner is decided for unbounded coordinates; slice spellings are decided against Python's slice resolution for unbounded bounds.", "4/C03"),
+            "planner is decided for unbounded coordinates; slice spellings are decided against Python's slice resolution for unbounded bounds; signed values; the store given by URI or open handle with two collections of one file queried interleaved.", "4/C03"),
 }
 
 PENDING = {}  # filled below
